@@ -149,7 +149,7 @@ def main(tier, seed, replay=None):
                     ("SolverComposite", lambda: claripy.SolverComposite())]
             ops = ["add", "add", "add", "pickle", "pickle", "satisfiable", "eval", "eval", "batch_eval", "min", "max", "solution", "is_true",
                    "simplify", "branch", "eval_bool"]
-            n = 90 if tier == "quick" else 4000
+            n = 200 if tier == "quick" else 4000
             fail = solverhist.run_histories(claripy, drv, rng, facs, n, 16, report=rep, tag="c18", ops=ops)
             stats["pickle_histories"] += n
         # ---------- (3) solvers into a fresh process ----------
@@ -173,7 +173,7 @@ def main(tier, seed, replay=None):
                         constraints=[str(c) for c in s.constraints], original=str(mine), loaded=str(got))
                     break
         if not fail:
-            for it in range(6 if tier == "quick" else 120):
+            for it in range(25 if tier == "quick" else 120):
                 uu = solverhist.Universe(claripy, drv, tag="xp%d_" % it)
                 forms = solverhist.constraint_pool(uu, rng)
                 cls = rng.choice([claripy.Solver, claripy.SolverCacheless, claripy.SolverComposite])
